@@ -11,12 +11,13 @@ Everything here is specification (no part of the executable data path uses it):
 * `normSeq` — the documented container difference: a `Converter` turns tuples and deques into lists, a
   `BaseConverter` keeps the container class it finds.  `normSeq` maps every list/tuple/deque to a list,
   recursively through sequences and dict values; sets and dict keys are left alone.
-* `Obj.scalarKeys` — every set element and every dict key inside a value is a scalar (None/bool/int/float/str/
+* `scalarKeys` — every set element and every dict key inside a value is a scalar (None/bool/int/float/str/
   bytes/enum member/object of an unknown class).  Outside this region a `Converter` raises `TypeError:
   unhashable` (recorded finding F10), so there is nothing to compare.
-* `World.AllInit` — no class has an `init=False` field (region of the recorded finding F43).
+* `AllInit` — no class has an `init=False` field (region of the recorded finding F43).
 -/
-namespace CattrsModel
+namespace CattrsModel.GenInterp
+open CattrsModel
 
 /-! ### class positions hold mappings -/
 
@@ -92,45 +93,45 @@ end
 
 /-! ### scalar set elements and dict keys -/
 
-def Obj.isScalar : Obj → Bool
+def isScalar : Obj → Bool
   | .coll _ _ | .dict _ | .inst _ _ => false
   | _ => true
 
-def allScalar (xs : List Obj) : Bool := xs.all Obj.isScalar
+def allScalar (xs : List Obj) : Bool := xs.all isScalar
 
 mutual
-def Obj.scalarKeys : Obj → Bool
-  | .coll ck xs => (!ck.isSet || allScalar xs) && Obj.scalarKeysL xs
-  | .dict kvs => Obj.scalarKeysKV kvs
-  | .inst _ fs => Obj.scalarKeysF fs
+def scalarKeys : Obj → Bool
+  | .coll ck xs => (!ck.isSet || allScalar xs) && scalarKeysL xs
+  | .dict kvs => scalarKeysKV kvs
+  | .inst _ fs => scalarKeysF fs
   | _ => true
 termination_by structural x => x
-def Obj.scalarKeysL : List Obj → Bool
+def scalarKeysL : List Obj → Bool
   | [] => true
-  | x :: xs => x.scalarKeys && Obj.scalarKeysL xs
+  | x :: xs => (scalarKeys x) && scalarKeysL xs
 termination_by structural xs => xs
-def Obj.scalarKeysKV : List (Obj × Obj) → Bool
+def scalarKeysKV : List (Obj × Obj) → Bool
   | [] => true
-  | (k, v) :: rest => k.isScalar && v.scalarKeys && Obj.scalarKeysKV rest
+  | (k, v) :: rest => (isScalar k) && (scalarKeys v) && scalarKeysKV rest
 termination_by structural kvs => kvs
-def Obj.scalarKeysF : List (String × Obj) → Bool
+def scalarKeysF : List (String × Obj) → Bool
   | [] => true
-  | (_, x) :: rest => x.scalarKeys && Obj.scalarKeysF rest
+  | (_, x) :: rest => (scalarKeys x) && scalarKeysF rest
 termination_by structural fs => fs
 end
 
 /-! ### no `init=False` field -/
 
-def World.AllInit (w : World) : Prop := ∀ c, ∀ f ∈ w.fields c, f.init = true
+def AllInit (w : World) : Prop := ∀ c, ∀ f ∈ w.fields c, f.init = true
 
-def World.allInitB (w : World) : Bool := w.classes.all (fun c => c.fields.all (·.init))
+def allInitB (w : World) : Bool := w.classes.all (fun c => c.fields.all (·.init))
 
-theorem World.allInitB_sound (w : World) (h : w.allInitB = true) : w.AllInit := by
-  simp only [World.allInitB, List.all_eq_true] at h
+theorem allInitB_sound (w : World) (h : (allInitB w) = true) : (AllInit w) := by
+  simp only [allInitB, List.all_eq_true] at h
   intro c f hf
   unfold World.fields at hf
   cases hc : w.classes[c]? with
   | none => rw [hc] at hf; cases hf
   | some k => rw [hc] at hf; exact h k (List.mem_of_getElem? hc) f hf
 
-end CattrsModel
+end CattrsModel.GenInterp
